@@ -780,6 +780,10 @@ fn spawn_response_loop(mut reader: BufReader<TcpStream>, inner: std::sync::Weak<
                     continue;
                 }
                 Err(err) => {
+                    // Shut the socket down through the reader's own handle first: a
+                    // caller parked in `write` (peer not reading) holds the writer
+                    // lock `fail_all_pending` needs, and only a shutdown releases it.
+                    let _ = reader.get_ref().shutdown(Shutdown::Both);
                     fail_all_pending(&inner, err);
                     break;
                 }
